@@ -30,7 +30,8 @@ CHECKS = {
 OTHER_NOTE = BASE_NOTE + " Numeric clauses are runtime contracts against independent dense references on bounded inputs (labelled bounded, never counted as proved)."
 CHECKS.update({
     "C03": dict(cat="other", ref="DESIGN §8 C03, App. A.4",
-                text="move_qnidx proved to preserve the QN-valid invariant for all sizes/labels/tensor contents (pyvc, z3); all arithmetic contracts "
+                text="The lemma that QN-valid labels confine the dense object to the sector qntot is mechanised (inductions over the site index discharged by z3), not cited. "
+                     "move_qnidx proved to preserve the QN-valid invariant for all sizes/labels/tensor contents (pyvc, z3); all arithmetic contracts "
                      "(dense sum/product/adjoint/overlap, QN-valid result, correct after later canonicalise/compress, operands untouched) evaluated on "
                      "bounded-exhaustive gauge histories against an independent dense contraction.",
                 technique="contract-based deductive verification (pyvc VCs with loop invariants, z3) for the label bookkeeping; runtime contracts on the real methods as bounded stand-in",
@@ -56,7 +57,8 @@ CHECKS.update({
                 technique="contract-based deductive verification (pyvc, z3; call by contract; induction lemmas) + theorem-derived runtime contracts as bounded stand-in",
                 note=OTHER_NOTE + " Cited lemmas: Eckart-Young, TT-SVD quasi-optimality. Assumed: scipy.linalg.norm >= 0."),
     "C06": dict(cat="other", ref="DESIGN §8 C06",
-                text="QN-valid representation invariant: proved preserved by move_qnidx for all sizes (pyvc); decided exactly by Engine S, for all tensor values per enumerated "
+                text="QN-valid labels imply that every non-zero product term carries total charge qntot: mechanised as z3 inductions over the site index (prefix / suffix sums, closing step at the centre) for every chain length, centre, label table and support. "
+                     "QN-valid representation invariant: proved preserved by move_qnidx for all sizes (pyvc); decided exactly by Engine S, for all tensor values per enumerated "
                      "shape, for sums / differences / operator images incl. charged operators (sector shift) / adjoints and, in kernel-stub mode, for canonicalise, ensure_*, "
                      "partial sweeps and lossless compression of states, operators and density operators; audited after every step of random operation histories "
                      "(all live objects), for every sector of every model incl. extreme ones, constructors, DMRG and evolution steps.",
@@ -150,7 +152,8 @@ CHECKS.update({
                           "reference (bounded stand-in)",
                 note=OTHER_NOTE),
     "C18": dict(cat="other", ref="DESIGN §8 C18, 5.3, S.2",
-                text="Engine S kernel-stub mode: svd_qn runs on matrices of indeterminates (allowed and forbidden positions) with each LAPACK call replaced by a trivial exact "
+                text="renormalizer.lib.davidson under a runtime contract: Ritz values are Rayleigh quotients of orthonormal vectors and upper bounds of the lowest levels for every Hermitian matrix (real / complex, 1-3 roots); converged lowest eigenpairs for diagonally dominant matrices. "
+                     "Engine S kernel-stub mode: svd_qn runs on matrices of indeterminates (allowed and forbidden positions) with each LAPACK call replaced by a trivial exact "
                      "factorisation of the block; restoration of exactly the symmetry-allowed part, the label rule on the support of every output column, pairing and shapes "
                      "are decided exactly for every label pattern on blocks up to 3x3 (4x4 thorough), one and two components, SVD economic/full and QR/RQ economic/full; eigh_qn (density-matrix path) with blocks built as V diag(w) V^H: only sectors with a partner "
                      "label are kept and restored, every column label describes its support. "
